@@ -24,6 +24,27 @@ def get_permeate_composition_from_fluxes(
     )
 
 
+def _validate_process_state(
+    feed_mass: float,
+    feed_temperature: float,
+    partial_fluxes: typing.Tuple[float, float],
+) -> None:
+    """
+    Raises ValueError if a process state is not physically admissible
+    (exhausted feed, non-positive or non-finite temperature, non-finite fluxes)
+    """
+    if not (
+        0 < feed_mass < numpy.inf
+        and 0 < feed_temperature < numpy.inf
+        and numpy.isfinite(partial_fluxes[0])
+        and numpy.isfinite(partial_fluxes[1])
+    ):
+        raise ValueError(
+            "The process left the physically admissible region "
+            "(feed exhausted or temperature out of range), reduce the step size"
+        )
+
+
 @attr.s(auto_attribs=True)
 class Pervaporation:
     membrane: Membrane
@@ -380,6 +401,9 @@ class Pervaporation:
                 )
             )
 
+            _validate_process_state(
+                feed_mass[step], conditions.initial_feed_temperature, partial_fluxes[step]
+            )
             d_mass_1 = partial_fluxes[step][0] * conditions.membrane_area * delta_hours
             d_mass_2 = partial_fluxes[step][1] * conditions.membrane_area * delta_hours
 
@@ -537,6 +561,9 @@ class Pervaporation:
                 )
             )
 
+            _validate_process_state(
+                feed_mass[step], feed_temperature[step], partial_fluxes[step]
+            )
             d_mass_1 = partial_fluxes[step][0] * conditions.membrane_area * delta_hours
             d_mass_2 = partial_fluxes[step][1] * conditions.membrane_area * delta_hours
 
@@ -1090,6 +1117,9 @@ class Pervaporation:
                 )
             )
 
+            _validate_process_state(
+                feed_mass[step], conditions.initial_feed_temperature, partial_fluxes[step]
+            )
             d_mass_1 = partial_fluxes[step][0] * conditions.membrane_area * delta_hours
             d_mass_2 = partial_fluxes[step][1] * conditions.membrane_area * delta_hours
 
@@ -1390,6 +1420,9 @@ class Pervaporation:
                 )
             )
 
+            _validate_process_state(
+                feed_mass[step], feed_temperature[step], partial_fluxes[step]
+            )
             d_mass_1 = partial_fluxes[step][0] * conditions.membrane_area * delta_hours
             d_mass_2 = partial_fluxes[step][1] * conditions.membrane_area * delta_hours
 
